@@ -17,7 +17,7 @@
     df.groupby(idcol)[c].cumsum()          ↦ sum over (pre ++ [r]).filter sameId
     df[(df[id]==i) & (df[idv]==time)]      ↦ (pre ++ r :: post).filter (sameIT r)
     max(doseind) > index                   ↦ a dose of the group lies in `post`
-    0 in groupind                          ↦ the first record of the dataset is in the group
+    df.loc[index,'DOSEID'] <= 1            ↦ the current value of the DOSEID column (repaired code, 183fc9b)
 
   `Spec` part (bottom): the per-individual chronological walk.
 -/
@@ -95,28 +95,25 @@ def groupRgs (cfg : Cfg) (r : Rec) (all : List Rec) : List Nat :=
 def multOf (gs : List Nat) : Nat :=
   ((List.range (gs.foldr max 0 + 1)).filter (fun v => decide (gs.count v > 1))).length
 
-/-- `0 in groupind` -/
-def row0InGroup (pre : List Rec) (r : Rec) : Bool :=
-  match pre with
-  | [] => true
-  | r0 :: _ => sameIT r r0
-
 /-- dose records of the id/time group of `r` among `xs` (`set(groupind) - set(obsind)`) -/
 def groupDoses (r : Rec) (xs : List Rec) : List Rec :=
   (xs.filter (sameIT r)).filter (fun x => x.amt != 0)
 
-/-- the body of the inner loop decrements `index` (once per entry of `nonunique`) -/
+/-- the body of the inner loop reaches the decrement for `index` (once per entry of `nonunique`),
+    apart from the test on the current DOSEID value -/
 def elig (cfg : Cfg) (pre : List Rec) (r : Rec) (post : List Rec) : Bool :=
   r.amt == 0
   && (groupDoses r post).isEmpty            -- not (maxind > index)
-  && !row0InGroup pre r                      -- not (0 in groupind)
   && (match (groupDoses r pre).getLast? with -- doseind non-empty; SS dose keeps the group
       | none => false
       | some d => !ssPos cfg d)
 
+/-- `m` passes of `if DOSEID <= 1: continue; DOSEID -= 1` over the value `c` -/
+def decTo1 (c : Int) (m : Nat) : Int := if c ≤ 1 then c else max (c - (m : Int)) 1
+
 def doseidAt (cfg : Cfg) (pre : List Rec) (r : Rec) (post : List Rec) : Int :=
-  cumOf pre r -
-    (if elig cfg pre r post then (multOf (groupRgs cfg r (pre ++ r :: post)) : Int) else 0)
+  if elig cfg pre r post then decTo1 (cumOf pre r) (multOf (groupRgs cfg r (pre ++ r :: post)))
+  else cumOf pre r
 
 /-- `get_doseid` -/
 def getDoseid (cfg : Cfg) (ds : List Rec) : List Int := zipMap (doseidAt cfg) ds
@@ -136,7 +133,8 @@ def adjust (cfg : Cfg) (ds : List Rec) (i : Int) (time : Rat) (d : List Int) : L
   zipMap (fun pre (p : Rec × Int) post =>
       let pre' := pre.map (·.1)
       let post' := post.map (·.1)
-      if p.1.id == i && p.1.time == time && elig cfg pre' p.1 post' then p.2 - 1 else p.2)
+      if p.1.id == i && p.1.time == time && elig cfg pre' p.1 post' && decide (p.2 > 1) then p.2 - 1
+      else p.2)
     (ds.zip d)
 
 def getDoseidLoop (cfg : Cfg) (ds : List Rec) : List Int :=
@@ -269,12 +267,6 @@ def walkDoseid (cfg : Cfg) (ds : List Rec) : List Int := walkAux cfg (fun _ => S
 
 /-! ### the class of datasets on which `get_doseid` is proved to agree with the walk -/
 
-/-- the individual of `r` has had exactly one dose so far, at the time stamp of `r` -/
-def firstDoseTie (pre : List Rec) (r : Rec) : Bool :=
-  match (pre.filter (sameId r)).filter isDose with
-  | [d] => d.time == r.time
-  | _ => false
-
 /-- amounts are non-negative and there is no reset event -/
 def plain (cfg : Cfg) (ds : List Rec) : Bool :=
   ds.all (fun r => decide (0 ≤ r.amt) && !resetFlag cfg r)
@@ -287,16 +279,11 @@ def Chrono (ds : List Rec) : Prop :=
 def DistinctDoseTimes (ds : List Rec) : Prop :=
   ds.Pairwise (fun x y => y.id = x.id → isDose x = true → isDose y = true → x.time ≠ y.time)
 
-/-- no non-dose record at the time stamp of its individual's first dose placed after that dose,
-    except in the id/time group of the first record of the dataset (finding F11) -/
-def noFirstDoseTie (ds : List Rec) : Bool :=
-  (zipMap (fun pre r _ => !(r.amt == 0 && firstDoseTie pre r) || row0InGroup pre r) ds).all id
-
 instance (ds : List Rec) : Decidable (Chrono ds) := by unfold Chrono; infer_instance
 instance (ds : List Rec) : Decidable (DistinctDoseTimes ds) := by unfold DistinctDoseTimes; infer_instance
 
 def Regular (cfg : Cfg) (ds : List Rec) : Prop :=
-  plain cfg ds = true ∧ Chrono ds ∧ DistinctDoseTimes ds ∧ noFirstDoseTie ds = true
+  plain cfg ds = true ∧ Chrono ds ∧ DistinctDoseTimes ds
 
 instance (cfg : Cfg) (ds : List Rec) : Decidable (Regular cfg ds) := by unfold Regular; infer_instance
 
